@@ -57,11 +57,14 @@ def name(u):
 
 
 # external unit signatures: name -> (result, {arg position or keyword: required unit}); result 'arg0' = unit of the first argument
+# a requirement is keyed by the parameter's position in the installed neurodsp signature and / or its keyword (calls are held in positional
+# normal form: keywords naming the next free slot have been moved there, so both spellings must be looked up)
 EXT = {
-    'filter_signal': ('arg0', {1: FS, 3: HZ, 'n_cycles': ONE, 'n_seconds': SEC}),
-    'amp_by_time': ('arg0', {1: FS, 2: HZ, 'n_cycles': ONE, 'n_seconds': SEC}),
-    'detect_bursts_dual_threshold': (ONE, {1: FS, 2: ONE, 3: HZ, 'min_n_cycles': ONE, 'min_burst_duration': SEC, 'n_cycles': ONE, 'n_seconds': SEC}),
-    'compute_filter_length': (SAMP, {0: FS, 2: HZ, 3: HZ, 'n_cycles': ONE, 'n_seconds': SEC}),
+    'filter_signal': ('arg0', {(1, 'fs'): FS, (3, 'f_range'): HZ, (4, 'n_cycles'): ONE, (5, 'n_seconds'): SEC}),
+    'amp_by_time': ('arg0', {(1, 'fs'): FS, (2, 'f_range'): HZ, (None, 'n_cycles'): ONE, (None, 'n_seconds'): SEC}),
+    'detect_bursts_dual_threshold': (ONE, {(1, 'fs'): FS, (2, 'dual_thresh'): ONE, (3, 'f_range'): HZ, (4, 'min_n_cycles'): ONE, (5, 'min_burst_duration'): SEC,
+                                           (None, 'n_cycles'): ONE, (None, 'n_seconds'): SEC}),
+    'compute_filter_length': (SAMP, {(0, 'fs'): FS, (2, 'f_lo'): HZ, (3, 'f_hi'): HZ, (4, 'n_cycles'): ONE, (5, 'n_seconds'): SEC}),
 }
 SAME_AS_ARG0 = {'mean', 'median', 'sum', 'diff', 'abs', 'append', 'unique', 'pad', 'ceil', 'floor', 'int', 'min', 'max', 'nanmin', 'nanmax', 'pymin', 'pymax',
                 'nanmean', 'cumsum', 'sort', 'flatten', 'reshape', 'swapaxes', 'transpose', 'astype', 'minimum', 'maximum', 'round', 'concatenate', 'clip'}
@@ -216,14 +219,26 @@ class Inference:
         ku = {k: self.u(v) for k, v in kw.items()}
         if nm in EXT:
             res, req = EXT[nm]
-            for pos, want in req.items():
-                got = au[pos] if isinstance(pos, int) and pos < len(au) else ku.get(pos) if not isinstance(pos, int) else None
+            for (pos, key), want in req.items():
+                if pos is not None and pos < len(au):
+                    got, val = au[pos], args[pos]
+                elif key in ku:
+                    got, val = ku[key], kw[key]
+                else:
+                    continue
                 got = self.flat(got)
                 if got in (LIT, COUNT) and want == ONE:
                     continue
-                if got not in (None, POLY, ANY) and got != want and not (args[pos] if isinstance(pos, int) and pos < len(args) else kw.get(pos, T.NONE)) == T.NONE:
-                    self.problem('UNIT-MISMATCH', t, f'argument {pos!r} of {nm} has unit {name(got)}, expected {name(want)}')
+                if got not in (None, POLY, ANY) and got != want and val != T.NONE:
+                    self.problem('UNIT-MISMATCH', t, f'argument {key!r} of {nm} has unit {name(got)}, expected {name(want)}')
             return self.flat(au[0]) if res == 'arg0' and au else res
+        if nm.rsplit('.', 1)[-1] in ('floor', 'ceil', 'trunc', 'rint', 'fix', 'int') and au and self.flat(au[0]) == V:
+            self.problem('ABSOLUTE-LEVEL', t, f'{nm} quantises a V-valued term to whole units: an absolute resolution in signal units')
+        if nm.rsplit('.', 1)[-1] in ('round', 'around', 'round_'):
+            # rounding to a fixed number of decimals is an absolute resolution in the units of the operand
+            if au and self.flat(au[0]) == V:
+                self.problem('ABSOLUTE-LEVEL', t, f'{nm} rounds a V-valued term to a fixed number of decimals: an absolute resolution in signal units')
+            return self.flat(au[0]) if au else None
         if nm in ABSOLUTE_TOLERANCE:
             if any(self.flat(u_) == V for u_ in au):
                 self.problem('ABSOLUTE-LEVEL', t, f'{nm} carries an absolute tolerance in signal units')
